@@ -578,6 +578,10 @@ impl Group for C15 {
                         co.violations.push(Violation { kind: "channel-id-reuse".into(),
                             desc: format!("new_channel({}) created a channel although channel {} was forgotten before", d, forgotten_max), at: i });
                     }
+                    if r.is_err() && !existed && wd.has_channel(d) {
+                        co.violations.push(Violation { kind: "channel-id-reuse".into(),
+                            desc: format!("new_channel({}) was refused but the channel exists afterwards", d), at: i });
+                    }
                     co.tags.insert(format!("new:{}", if r.is_ok() { if existed { "existing" } else { "created" } } else { "refused" }));
                     if r.is_ok() { "ok".into() } else { "err".into() }
                 }
@@ -600,7 +604,19 @@ impl Group for C15 {
                     if deep_any { interesting = true; }
                     match catch_unwind(AssertUnwindSafe(|| wd.node.get_heartbeat())) { Ok(_) => "ok".into(), Err(e) => format!("panic {}", panic_msg(e)) }
                 }
-                ["restart"] => { wd.restart(); co.tags.insert("restart".into()); "ok".into() }
+                ["restart"] => {
+                    co.tags.insert("restart".into());
+                    match catch_unwind(AssertUnwindSafe(|| wd.restart())) {
+                        Ok(()) => "ok".into(),
+                        Err(e) => {
+                            // the persisted state cannot be restored (e.g. a channel whose listener is gone): the signer is dead
+                            co.violations.push(Violation { kind: "restart-abort".into(), desc: format!("restore_node panicked: {}", panic_msg(e)), at: i });
+                            dead = true;
+                            co.out.push("panic".into());
+                            continue;
+                        }
+                    }
+                }
                 ["add", rest @ ..] => {
                     let ids: Vec<u64> = rest.iter().map(|tk| super::c14::world::parse_token_id(tk)).collect();
                     wd.add_block(&ids)
